@@ -132,6 +132,16 @@ def _run_family(idx: int) -> tuple[int, Any, str | None]:
         return idx, None, traceback.format_exc()
 
 
+_CID = [""]
+_KNOWN: list[Any] = []
+
+
+def _known_cached() -> list[dict[str, Any]]:
+    if not _KNOWN:
+        _KNOWN.append(load_known())
+    return _KNOWN[0]
+
+
 def run_families(families: list[Family], workers: int | None) -> tuple[Any, dict[str, Any], list[str]]:
     from symx import ExploreResult
 
@@ -156,7 +166,7 @@ def run_families(families: list[Family], workers: int | None) -> tuple[Any, dict
                 continue
             total.merge(res)
             all_exhausted = all_exhausted and res.exhausted
-            if os.environ.get("VCHECK_STOP_AT_FIRST_VIOLATION") and res.violation_counts:
+            if os.environ.get("VCHECK_STOP_AT_FIRST_VIOLATION") and any(match_known(_CID[0], s_, _known_cached()) is None for s_ in res.violation_counts):
                 # development aid for regression runs over seeded changes: a family has reported a
                 # violation, the remaining families are not needed to tell "caught" from "missed"
                 # (never set by the registered commands)
@@ -330,6 +340,7 @@ def run_check(
     quiet: bool = False,
 ) -> int:
     t0 = time.time()
+    _CID[0] = cid
     if plant:
         _apply_plant(mod, plant)
     spec: Spec = build_spec(mod, tier, seed)
